@@ -17,7 +17,7 @@ package elastic
 //@   modifies b.rb
 //@   ensures r == b.rb && r != nil && ring.wf(r) && rcnt(b) == old(rcnt(b))
 //@   ensures old(b.rb) != nil ==> r == old(b.rb)
-//@   ensures old(b.rb) == nil ==> fresh(r)
+//@   ensures old(b.rb) == nil ==> fresh(r) && (r.buf == nil || fresh(r.buf))
 //
 //@ func (b *RingBuffer) done()
 //@   requires rwf(b)
@@ -64,6 +64,7 @@ package elastic
 //@   ensures old(b.rb) == nil && len(p) > 0 ==> fresh(b.rb)
 //@   ensures old(b.rb) == nil && len(p) == 0 ==> b.rb == nil
 //@   ensures b.rb != nil && old(b.rb) != nil ==> same(b.rb.buf, old(b.rb.buf)) || fresh(b.rb.buf)
+//@   ensures b.rb != nil && old(b.rb) == nil ==> b.rb.buf == nil || fresh(b.rb.buf)
 //
 //@ func (b *RingBuffer) Buffered() int
 //@   requires rwf(b)
@@ -108,7 +109,7 @@ package elastic
 //@   ensures forall j :: 0 <= j && j < n ==> rat(b, old(rcnt(b)) + j) == rdata[ref(r)][old(rpos[ref(r)]) + j]
 //@   ensures old(b.rb) != nil ==> b.rb == old(b.rb)
 //@   ensures old(b.rb) == nil ==> fresh(b.rb)
-//@   ensures b.rb != nil && (same(b.rb.buf, old(b.rb.buf)) || fresh(b.rb.buf))
+//@   ensures b.rb != nil && (old(b.rb) != nil ==> same(b.rb.buf, old(b.rb.buf)) || fresh(b.rb.buf)) && (old(b.rb) == nil ==> b.rb.buf == nil || fresh(b.rb.buf))
 //
 //@ func (b *RingBuffer) WriteTo(w io.Writer) (n int64, err error)
 //@   requires rwf(b) && w != nil
@@ -179,7 +180,7 @@ package elastic
 //@   ensures forall j :: 0 <= j && j < len(p) ==> bat(mb, old(bcnt(mb)) + j) == p[j]
 //@   ensures mb.ringBuffer.rb == old(mb.ringBuffer.rb) || fresh(mb.ringBuffer.rb)
 //@   ensures forall a Ref :: (old(lbufs[mb.listBuffer])[a] ==> lbufs[mb.listBuffer][a]) && (lbufs[mb.listBuffer][a] ==> old(lbufs[mb.listBuffer])[a] || fresh(a))
-//@   ensures mb.ringBuffer.rb != nil ==> (mb.ringBuffer.rb == old(mb.ringBuffer.rb) && same(mb.ringBuffer.rb.buf, old(mb.ringBuffer.rb.buf))) || fresh(mb.ringBuffer.rb.buf)
+//@   ensures mb.ringBuffer.rb != nil ==> (mb.ringBuffer.rb == old(mb.ringBuffer.rb) && same(mb.ringBuffer.rb.buf, old(mb.ringBuffer.rb.buf))) || fresh(mb.ringBuffer.rb.buf) || (old(mb.ringBuffer.rb) == nil && mb.ringBuffer.rb.buf == nil)
 //
 //@ func (mb *Buffer) ReadFrom(r io.Reader) (n int64, err error)
 //@   requires bwf(mb) && r != nil
@@ -192,7 +193,7 @@ package elastic
 //@   ensures forall j :: 0 <= j && j < n ==> bat(mb, old(bcnt(mb)) + j) == rdata[ref(r)][old(rpos[ref(r)]) + j]
 //@   ensures mb.ringBuffer.rb == old(mb.ringBuffer.rb) || fresh(mb.ringBuffer.rb)
 //@   ensures forall a Ref :: (old(lbufs[mb.listBuffer])[a] ==> lbufs[mb.listBuffer][a]) && (lbufs[mb.listBuffer][a] ==> old(lbufs[mb.listBuffer])[a] || fresh(a))
-//@   ensures mb.ringBuffer.rb != nil ==> (mb.ringBuffer.rb == old(mb.ringBuffer.rb) && same(mb.ringBuffer.rb.buf, old(mb.ringBuffer.rb.buf))) || fresh(mb.ringBuffer.rb.buf)
+//@   ensures mb.ringBuffer.rb != nil ==> (mb.ringBuffer.rb == old(mb.ringBuffer.rb) && same(mb.ringBuffer.rb.buf, old(mb.ringBuffer.rb.buf))) || fresh(mb.ringBuffer.rb.buf) || (old(mb.ringBuffer.rb) == nil && mb.ringBuffer.rb.buf == nil)
 //
 //@ func (mb *Buffer) WriteTo(w io.Writer) (n int64, err error)
 //@   requires bwf(mb) && w != nil
@@ -257,4 +258,4 @@ package elastic
 //@   ensures forall y :: 0 <= y && y < seglen(bs) ==> bat(mb, old(bcnt(mb)) + y) == segbyte(bs, y)
 //@   ensures forall a Ref :: (old(lbufs[mb.listBuffer])[a] ==> lbufs[mb.listBuffer][a]) && (lbufs[mb.listBuffer][a] ==> old(lbufs[mb.listBuffer])[a] || fresh(a))
 //@   ensures mb.ringBuffer.rb == old(mb.ringBuffer.rb) || fresh(mb.ringBuffer.rb)
-//@   ensures mb.ringBuffer.rb != nil ==> (mb.ringBuffer.rb == old(mb.ringBuffer.rb) && same(mb.ringBuffer.rb.buf, old(mb.ringBuffer.rb.buf))) || fresh(mb.ringBuffer.rb.buf)
+//@   ensures mb.ringBuffer.rb != nil ==> (mb.ringBuffer.rb == old(mb.ringBuffer.rb) && same(mb.ringBuffer.rb.buf, old(mb.ringBuffer.rb.buf))) || fresh(mb.ringBuffer.rb.buf) || (old(mb.ringBuffer.rb) == nil && mb.ringBuffer.rb.buf == nil)
